@@ -45,6 +45,19 @@ func expectedOutput(script string) (stdout, stderr []byte, exit int, signalled b
 			if op[0] == 'E' && eOpen {
 				stderr = append(stderr, buf...)
 			}
+		case op[0] == 'B':
+			n, _ := strconv.Atoi(op[1:])
+			bo, be := make([]byte, n*unit), make([]byte, n*unit)
+			for i := range bo {
+				bo[i], be[i] = byte('a'+wi%26), byte('a'+(wi+1)%26)
+			}
+			wi += 2
+			if oOpen {
+				stdout = append(stdout, bo...)
+			}
+			if eOpen {
+				stderr = append(stderr, be...)
+			}
 		case op[0] == 'x':
 			exit, _ = strconv.Atoi(op[1:])
 			return
